@@ -15,10 +15,12 @@ package main
 import (
 	"bytes"
 	"crypto/sha256"
+	"encoding/json"
 	"fmt"
 	"io"
 	"os"
 	"os/exec"
+	"runtime"
 	"sort"
 	"strconv"
 	"strings"
@@ -372,11 +374,72 @@ func histKey(o any) [32]byte {
 	return sha256.Sum256([]byte(dump.Of(o) + "\x00" + globalsDump()))
 }
 
+// histRun shards the start objects over worker processes (each worker is sequential and
+// deterministic; package-level state is per process) and merges what they report.
 func histRun(r *ev.Run, thorough bool) {
 	if !haveGlobals {
 		r.Infra("this binary was built without the generated package-level-variable dump (-tags verifdump with the gendump overlay); run through ./check")
 		return
 	}
+	exe, err := os.Executable()
+	if err != nil {
+		r.Infra("cannot locate own executable: " + err.Error())
+		return
+	}
+	pristine := pristineTable(r, thorough)
+	histPristine = pristine
+	pf, err := os.CreateTemp("", "verif-pristine-*.json")
+	if err != nil {
+		r.Infra("cannot create a temporary file: " + err.Error())
+		return
+	}
+	defer os.Remove(pf.Name())
+	pb, _ := json.Marshal(pristine)
+	pf.Write(pb)
+	pf.Close()
+	n := runtime.NumCPU()
+	var mu sync.Mutex
+	safeParallel(r, n, func(i int) {
+		cmd := exec.Command(exe, "hist-worker", r.Tier, fmt.Sprint(i), fmt.Sprint(n), pf.Name())
+		var out bytes.Buffer
+		cmd.Stdout = &out
+		cmd.Stderr = os.Stderr
+		if err := cmd.Run(); err != nil {
+			r.Infra(fmt.Sprintf("history worker %d failed: %v", i, err))
+			return
+		}
+		mu.Lock()
+		defer mu.Unlock()
+		if err := r.Merge(out.Bytes()); err != nil {
+			r.Infra(fmt.Sprintf("history worker %d: %v", i, err))
+		}
+	})
+	r.Set("pristine_process_results_compared", int64(len(pristine)))
+	r.Set("package_level_variables_dumped", int64(globalsCount()))
+	r.Set("start_objects", int64(len(histStarts(thorough))))
+	r.Set("operations", int64(len(histOps(thorough))))
+	depth, maxMut := 3, 1
+	if thorough {
+		depth, maxMut = 4, 2
+	}
+	r.Set("depth_bound", int64(depth))
+	r.Set("mutation_bound", int64(maxMut))
+	r.Set("worker_processes", int64(n))
+}
+
+// histWorkerMain: one shard of the history search.
+func histWorkerMain(args []string) {
+	r := ev.New("C15", args[0], "model_checking")
+	i, _ := strconv.Atoi(args[1])
+	n, _ := strconv.Atoi(args[2])
+	if b, err := os.ReadFile(args[3]); err == nil {
+		json.Unmarshal(b, &histPristine)
+	}
+	histShard(r, args[0] == "thorough", i, n)
+	os.Stdout.Write(r.Export())
+}
+
+func histShard(r *ev.Run, thorough bool, shard, shards int) {
 	depth, maxMut := 3, 1
 	if thorough {
 		depth, maxMut = 4, 2
@@ -390,9 +453,11 @@ func histRun(r *ev.Run, thorough bool) {
 	firstPath := map[string][]string{}
 	var states, transitions, globalsChanged, dumpChanged int64
 	outcomes := map[string]bool{}
-	pristine := pristineTable(r, thorough)
-	histPristine = pristine
+	pristine := histPristine
 	for si := range starts {
+		if si%shards != shard {
+			continue
+		}
 		st := &starts[si]
 		seen := map[[32]byte]bool{}
 		o0 := st.make()
@@ -514,16 +579,12 @@ func histRun(r *ev.Run, thorough bool) {
 	r.Add("transitions", transitions)
 	r.Add("traces_validated_against_impl", transitions)
 	r.Add("evaluations", transitions)
-	r.Set("start_objects", int64(len(starts)))
-	r.Set("operations", int64(len(ops)))
-	r.Set("depth_bound", int64(depth))
-	r.Set("mutation_bound", int64(maxMut))
-	r.Set("distinct_results_observed", int64(len(outcomes)))
-	r.Set("package_level_variables_dumped", int64(globalsCount()))
-	r.Set("package_level_state_changed_during_run", globalsChanged == 1)
-	r.Set("queries_that_changed_private_object_state", dumpChanged)
-	r.Set("pristine_process_results_compared", int64(len(pristine)))
-	r.Sample(map[string]any{"history": describePath(&starts[len(starts)/2], ops, []int{0, len(ops) - 1, 0})})
+	r.Add("distinct_results_observed_summed_over_workers", int64(len(outcomes)))
+	r.Add("workers_that_saw_package_level_state_change", globalsChanged)
+	r.Add("queries_that_changed_private_object_state", dumpChanged)
+	if shard == 0 {
+		r.Sample(map[string]any{"history": describePath(&starts[len(starts)/2], ops, []int{0, len(ops) - 1, 0})})
+	}
 }
 
 func hashStr(s string) string {
